@@ -264,8 +264,19 @@ def mutate_invalid(rng, methods):
             other.payload = [("pl", P("Binary")), ("extra", P("u32"))]
         methods.append(other)
     elif kind == "payload_ty":
+        def other_ty(t):
+            # a different type: a plain one, or one that shares the outer name and differs in a type argument / module
+            r = rng.random()
+            if r < 0.4:
+                return P("u64") if t.rust() != "u64" else P("u32")
+            if r < 0.7:
+                return P("Vec", P("u64")) if t.rust().replace(" ", "") != "Vec<u64>" else P("Vec", P("String"))
+            if r < 0.85:
+                return P("Option", P("u8")) if t.rust().replace(" ", "") != "Option<u8>" else P("Option", P("String"))
+            return PP("other", "Binary") if t.rust() == "Binary" else PP("other", t.rust().split("<")[0].split("::")[-1].strip())
+        m.payload = [(n, rng.choice([t, P("Vec", P("String")), P("Option", P("String"))])) for n, t in m.payload] if not m.raw else m.payload
         other = RMethod(name=m.name + "_o", on={"success": "error", "error": "success", "always": "error"}[m.on],
-                        handlers=list(m.claims())[:1], payload=[(n, P("u64")) for n, _ in m.payload], raw=False)
+                        handlers=list(m.claims())[:1], payload=[(n, other_ty(t)) for n, t in m.payload], raw=False)
         methods.append(other)
     elif kind == "data_on_error":
         m2 = [x for x in methods if x.on != "success"]
